@@ -26,6 +26,12 @@ CHECKS["C04"] = {
     "note": "Sound over-approximation w.r.t. the std adaptor transfer models listed in rules/prov.py; unknown calls default to the union of all argument tags. 'At most once per use' for lazy operators is covered by C05's clauses, not here.",
     "technique": "interprocedural flow-insensitive taint (provenance) analysis on MIR with variant case-splitting; call-graph reachability",
 }
+CHECKS["C01"] = {
+    "level": "other",
+    "text": "Exhaustive over the call graph from every externally visible entry point (Rust apply and the public js_op helpers, CLI main, Python binding; default/cmdline/python feature sets, debug profile = overflow and bounds checks on): each of the 64 panic sources per configuration (Assert terminators, panicky std calls per spec/api/panicky.tsv) is discharged by a dataflow justification — discriminant guard, always-Some constructor flow, arity interval for constant indices into the operand vector (refined along dominating length comparisons, through closures and forwarding functions), constant/value-set operands — or by one of four table lines with a reason; every external callee is classified; loops are bounded by finite std iterators; every call-graph cycle has a descent witness (evaluator cycle: parser only descends into rule text; helpers: structural descent or acyclic variant-transition graph); process-boundary facts for the CLI and the Python binding; serde_json's 128 recursion limit is kept.",
+    "note": "Does not decide stack consumption of 128 nested evaluator frames (a code-generation quantity), panics inside dependency functions classified total by reading (spec/api/total.tsv, deps.tsv are the trusted base), or a closed stdout. An unclassified external callee is reported INCONCLUSIVE (exit 2), never passed.",
+    "technique": "call-graph reachability + per-source justification dataflow on MIR (typestate, value sets, arity intervals, dominators); SCC descent witnesses",
+}
 NOT_APPLICABLE = {}
 for i in range(1, 20):
     p = "C%02d" % i
